@@ -12,6 +12,8 @@ package primary
 // $Rused[b] - block code b has been handed out by Put at some time.
 // $pending  - some record handed out by Put has not been written to the primary files yet
 //             (flush ordering D1, DESIGN.md §4 C03).
+// $failed   - a Flush of the primary has returned an I/O error to its caller
+// $closed   - Close has stopped the collector and closed the primary's files
 // Callers are verified against this contract. It is an abstract (refinement
 // gap GAP-2) contract: the implementations are verified against concrete
 // pool/position contracts, not against this ghost state.
@@ -22,6 +24,8 @@ package primary
 //@   ghost field $Rval (Array Int Bytes)
 //@   ghost field $Rused (Array Int Bool)
 //@   ghost field $pending Bool
+//@   ghost field $failed Bool
+//@   ghost field $closed Bool
 
 //@ func (p PrimaryStorage) IndexKey(key []byte) (ik []byte, err error)
 //@   trusted interface contract: index key = digest of the multihash/CID, a pure function of the key bytes (assumed of go-multihash / go-cid)
@@ -57,15 +61,18 @@ package primary
 
 //@ func (p PrimaryStorage) Flush() (w types.Work, err error)
 //@   trusted interface contract (GAP-2): flushing does not change what is readable
-//@   modifies p.$pending
+//@   modifies p.$pending, p.$failed
 //@   ensures err == nil ==> !p.$pending
 //@   ensures old(!p.$pending) ==> !p.$pending
+//@   ensures err != nil ==> p.$failed
+//@   ensures old(p.$failed) ==> p.$failed
 //@ func (p PrimaryStorage) Sync() (err error)
 //@   trusted interface contract
 //@ func (p PrimaryStorage) Close() (err error)
-//@   trusted interface contract: Close flushes
-//@   modifies p.$pending
+//@   trusted interface contract: Close stops the collector, flushes and closes the files (proved for MultihashPrimary.Close)
+//@   modifies p.$pending, p.$closed, p.$failed
 //@   ensures err == nil ==> !p.$pending
+//@   ensures p.$closed
 //@ func (p PrimaryStorage) OutstandingWork() (w types.Work)
 //@   trusted interface contract
 //@   pure
